@@ -447,20 +447,98 @@ class Desugar(ast.NodeTransformer):
     spelling:   setattr(o, 'f', v) -> o.f = v ;  getattr(o, 'f') -> o.f ;
     for a in ('f', 'g'): <body using a only as such a literal name>  ->  body unrolled."""
 
-    def __init__(self, consts=None):
+    def __init__(self, consts=None, cls_consts=None):
         self.changed = False
         self.consts = consts or {}
+        self.cls_consts = cls_consts or {}
 
     def visit_FunctionDef(self, node):
         self.generic_visit(node)
         return node
 
+    def set_locals(self, fn):
+        """local names bound once to a display and only ever iterated over by a for statement"""
+        stores, loads, iters = {}, {}, {}
+        for n in ast.walk(fn):
+            if isinstance(n, ast.Name):
+                if isinstance(n.ctx, ast.Load):
+                    loads[n.id] = loads.get(n.id, 0) + 1
+                else:
+                    stores[n.id] = stores.get(n.id, 0) + 1
+            if isinstance(n, ast.For) and isinstance(n.iter, ast.Name):
+                iters[n.iter.id] = iters.get(n.iter.id, 0) + 1
+        args = {a.arg for a in fn.args.args + fn.args.kwonlyargs + fn.args.posonlyargs}
+        self.local_seqs = {}
+        for n in ast.walk(fn):
+            if isinstance(n, ast.Assign) and len(n.targets) == 1 and isinstance(n.targets[0], ast.Name) and \
+                    isinstance(n.value, (ast.Tuple, ast.List)):
+                k = n.targets[0].id
+                if stores.get(k) == 1 and k not in args and loads.get(k, 0) == iters.get(k, 0) and \
+                        all(isinstance(e, ast.Constant) or
+                            (isinstance(e, (ast.Tuple, ast.List)) and all(isinstance(c, ast.Constant) for c in e.elts))
+                            for e in n.value.elts):
+                    self.local_seqs[k] = n.value
+
+    def _seq(self, it, depth=0):
+        """the literal display an iterable expression denotes: a display, a module-level / class-level constant
+        display, a concatenation of those, tuple(..) / list(..) / sorted-free wrappers of one"""
+        if depth > 6:
+            return None
+        if isinstance(it, (ast.Tuple, ast.List)):
+            return it
+        if isinstance(it, ast.Name) and it.id in getattr(self, 'local_seqs', {}):
+            return self.local_seqs[it.id]
+        if isinstance(it, ast.Name) and it.id in self.consts:
+            return self._seq(self.consts[it.id], depth + 1)
+        if isinstance(it, ast.Attribute) and isinstance(it.value, ast.Name) and it.value.id in ('self', 'cls') and \
+                it.attr in self.cls_consts:
+            return self._seq(self.cls_consts[it.attr], depth + 1)
+        if isinstance(it, ast.Attribute) and isinstance(it.value, ast.Call) and ast.unparse(it.value) in \
+                ('type(self)', 'self.__class__') and it.attr in self.cls_consts:
+            return self._seq(self.cls_consts[it.attr], depth + 1)
+        if isinstance(it, ast.Attribute) and isinstance(it.value, ast.Name) and \
+                it.value.id in self.cls_consts.get('#classes', ()) and it.attr in self.cls_consts:
+            return self._seq(self.cls_consts[it.attr], depth + 1)
+        if isinstance(it, ast.BinOp) and isinstance(it.op, ast.Add):
+            a, b = self._seq(it.left, depth + 1), self._seq(it.right, depth + 1)
+            if a is not None and b is not None and type(a) is type(b):
+                return ast.copy_location(type(a)(elts=list(a.elts) + list(b.elts), ctx=ast.Load()), it)
+            return None
+        if isinstance(it, ast.Call) and isinstance(it.func, ast.Name) and it.func.id in ('tuple', 'list') and \
+                len(it.args) == 1 and not it.keywords:
+            return self._seq(it.args[0], depth + 1)
+        return None
+
     def visit_For(self, node):
-        it = node.iter
-        if isinstance(it, ast.Name) and isinstance(self.consts.get(it.id), (ast.Tuple, ast.List)):
-            it = self.consts[it.id]           # a module-level tuple of names
+        it = self._seq(node.iter)
+        if it is None:
+            it = node.iter
         # for h in (left, right): h.attr = v  -- a loop over a literal tuple of (at most 4) plain names is
         # unrolled when the loop variable is only read in the body
+        def _path(e):
+            while isinstance(e, ast.Attribute):
+                e = e.value
+            return isinstance(e, ast.Name)
+        if isinstance(node.target, ast.Name) and isinstance(it, (ast.Tuple, ast.List)) and 1 <= len(it.elts) <= 4 and \
+                not node.orelse and all(isinstance(e, ast.Attribute) and _path(e) for e in it.elts) and \
+                not any(isinstance(x, (ast.Break, ast.Continue, ast.Return, ast.For, ast.While, ast.Lambda,
+                                       ast.ListComp, ast.GeneratorExp, ast.DictComp, ast.SetComp))
+                        for s in node.body for x in ast.walk(s)) and \
+                not any(isinstance(x, ast.Name) and x.id == node.target.id and isinstance(x.ctx, (ast.Store, ast.Del))
+                        for s in node.body for x in ast.walk(s)) and len(node.body) <= 4 and \
+                not any(isinstance(x, (ast.Attribute, ast.Name)) and isinstance(x.ctx, (ast.Store, ast.Del)) and
+                        any((ast.unparse(e) + '.').startswith(ast.unparse(x) + '.') for e in it.elts)
+                        for s in node.body for x in ast.walk(s)):
+            out = []
+            for e in it.elts:
+                for s in node.body:
+                    out.append(_SubstName(node.target.id, e).visit(copy.deepcopy(s)))
+            self.changed = True
+            res = []
+            for s in out:
+                r = self.visit(s)
+                res.extend(r if isinstance(r, list) else [r])
+            return res
         if isinstance(node.target, ast.Name) and isinstance(it, (ast.Tuple, ast.List)) and 2 <= len(it.elts) <= 4 and \
                 not node.orelse and all(isinstance(e, ast.Name) for e in it.elts) and \
                 not any(isinstance(x, (ast.Break, ast.Continue, ast.Return, ast.For, ast.While, ast.Lambda,
@@ -485,7 +563,15 @@ class Desugar(ast.NodeTransformer):
         if isinstance(node.target, ast.Tuple) and isinstance(it, (ast.Tuple, ast.List)) and it.elts and \
                 len(it.elts) <= 12 and not node.orelse and all(isinstance(t, ast.Name) for t in node.target.elts) and \
                 all(isinstance(e, (ast.Tuple, ast.List)) and len(e.elts) == len(node.target.elts) and
-                    all(isinstance(c, ast.Constant) for c in e.elts) for e in it.elts) and \
+                    all(isinstance(c, (ast.Constant, ast.Name)) or
+                        (isinstance(c, (ast.List, ast.Dict, ast.Tuple)) and not ast.unparse(c).strip('[]{}()') and
+                         sum(1 for s in node.body for x in ast.walk(s)
+                             if isinstance(x, ast.Name) and x.id == t.id) <= 1)
+                        for c, t in zip(e.elts, node.target.elts)) for e in it.elts) and \
+                not any(isinstance(x, ast.Name) and isinstance(x.ctx, (ast.Store, ast.Del)) and
+                        x.id in {c.id for e in it.elts for c in e.elts if isinstance(c, ast.Name)} |
+                        {t.id for t in node.target.elts}
+                        for s in node.body for x in ast.walk(s)) and \
                 not any(isinstance(x, (ast.Break, ast.Continue)) for s in node.body for x in ast.walk(s)) and \
                 any(isinstance(x, ast.Call) and isinstance(x.func, ast.Name) and x.func.id in ('setattr', 'getattr')
                     for s in node.body for x in ast.walk(s)):
@@ -522,9 +608,41 @@ class Desugar(ast.NodeTransformer):
         self.generic_visit(node)
         return node
 
+    def visit_Assign(self, node):
+        self.generic_visit(node)
+        # (a, b, c) = ([] for _ in range(3))   /  a, b = [[] for _ in range(2)]  ->  one assignment each
+        if len(node.targets) == 1 and isinstance(node.targets[0], (ast.Tuple, ast.List)) and \
+                isinstance(node.value, (ast.GeneratorExp, ast.ListComp)) and len(node.value.generators) == 1:
+            g = node.value.generators[0]
+            n = len(node.targets[0].elts)
+            if isinstance(g.iter, ast.Call) and isinstance(g.iter.func, ast.Name) and g.iter.func.id == 'range' and \
+                    len(g.iter.args) == 1 and isinstance(g.iter.args[0], ast.Constant) and g.iter.args[0].value == n \
+                    and not g.ifs and isinstance(g.target, ast.Name) and \
+                    not any(isinstance(x, ast.Name) and x.id == g.target.id for x in ast.walk(node.value.elt)) and \
+                    not any(isinstance(t, ast.Starred) for t in node.targets[0].elts):
+                self.changed = True
+                return [ast.copy_location(ast.Assign(targets=[t], value=copy.deepcopy(node.value.elt)), node)
+                        for t in node.targets[0].elts]
+        return node
+
     def visit_Expr(self, node):
         self.generic_visit(node)
         c = node.value
+        # self.__dict__.update(f=v, g=w) / vars(self).update(f=v)  ->  self.f = v ; self.g = w
+        if isinstance(c, ast.Call) and isinstance(c.func, ast.Attribute) and c.func.attr == 'update' and \
+                not c.args and c.keywords and all(k.arg is not None for k in c.keywords):
+            recv = c.func.value
+            obj = None
+            if isinstance(recv, ast.Attribute) and recv.attr == '__dict__':
+                obj = recv.value
+            elif isinstance(recv, ast.Call) and isinstance(recv.func, ast.Name) and recv.func.id == 'vars' and \
+                    len(recv.args) == 1 and not recv.keywords:
+                obj = recv.args[0]
+            if isinstance(obj, ast.Name):
+                self.changed = True
+                return [ast.copy_location(ast.Assign(
+                    targets=[ast.Attribute(value=copy.deepcopy(obj), attr=k.arg, ctx=ast.Store())], value=k.value), node)
+                    for k in c.keywords]
         if isinstance(c, ast.Call) and isinstance(c.func, ast.Name) and c.func.id == 'setattr' and \
                 len(c.args) == 3 and not c.keywords and isinstance(c.args[1], ast.Constant) and \
                 isinstance(c.args[1].value, str) and c.args[1].value.isidentifier():
@@ -543,9 +661,10 @@ class Desugar(ast.NodeTransformer):
         return node
 
 
-def desugar(fn_node, consts=None):
-    d = Desugar(consts)
+def desugar(fn_node, consts=None, cls_consts=None):
+    d = Desugar(consts, cls_consts)
     new = copy.deepcopy(fn_node)
+    d.set_locals(new)
     new.body = [y for s in new.body for y in (lambda r: r if isinstance(r, list) else [r])(d.visit(s))]
     if not d.changed:
         return fn_node, False
